@@ -24,6 +24,15 @@ def run(rep, tier):
                 rep.violation("TensorModel.tla violates %s" % r.invariant_violated, payload=r.out[-4000:])
             else:
                 raise CheckError("TLC failed on TensorModel:\n" + r.out[-3000:])
+    # unbounded strengthening: for arbitrary positive dimensions the row-major offset is in range and injective (rank 3 directly, and
+    # the Horner step that extends it to any rank by induction) - Apalache / Z3 non-linear integer arithmetic, no bound on the dimensions
+    res = {}
+    for inv in ("StepInRange", "StepInjective", "InRange3", "Injective3"):
+        st, out = common.apalache("TensorOffsetInd", SPECDIR, ["--init=Init", "--inv=" + inv, "--length=0"], timeout=600, tag="TensorOffsetInd_" + inv)
+        res[inv] = st
+        if st == "violation":
+            rep.violation("Apalache: %s of TensorOffsetInd.tla fails" % inv, payload=out[-4000:])
+    rep.coverage.setdefault("apalache_inductive", []).append({"module": "TensorOffsetInd", "result": res})
     exe = common.build_harness("tensor_driver", "asan")["tensor_driver"]
     parts, md4, md5, nrand = (8, 4, 3, 3) if tier == "quick" else (16, 4, 3, 40)
     env = {"ASAN_OPTIONS": "detect_leaks=0:abort_on_error=0", "UBSAN_OPTIONS": "print_stacktrace=1"}
